@@ -101,7 +101,8 @@ def r3(tree, prog, rep):
     from ..astutil import resolve_local
     g = build(fn, split=True)
     dil_methods = tree.methods(MGR, "Dilator")
-    has_manager = truthy_atom(lambda e: is_self_attr(e, "_manager"))
+    from ..cfg import object_atom
+    has_manager = object_atom(lambda e: is_self_attr(e, "_manager"), fn)      # None or a Manager
     ms = g.call_nodes(lambda c: dotted(c.func) == "self._manager.stop")
 
     def fires_stoppedD(cb):
@@ -152,7 +153,10 @@ def r4(tree, rep):
     from ..cfg import truthy_atom as _ta
     from ..astutil import resolve_local as _rl
     g = build(fn, split=True)
-    have_version = _ta(lambda e: is_self_attr(e, "_dilation_version"))
+    dv = [n for n in ast.walk(fn) if isinstance(n, ast.Assign) and any(is_self_attr(t, "_dilation_version") for t in n.targets)]
+    # the chosen version: the attribute, or the once-bound local it was assigned from
+    via = {n.value.id for n in dv if isinstance(n.value, ast.Name) and len(local_defs(fn, n.value.id)) == 1}
+    have_version = _ta(lambda e: is_self_attr(e, "_dilation_version") or (isinstance(e, ast.Name) and e.id in via))
     fl = g.call_nodes(lambda c: dotted(c.func) == "self.fail")
     ne = g.cond_edges(have_version, False)
     ok = len(fl) == 1 and bool(ne) and all(g.exit not in g.reach([y], avoid_nodes=set(fl), explicit_only=True) for (x, y, l) in ne) \
@@ -165,8 +169,8 @@ def r4(tree, rep):
         ok = isinstance(a, ast.Call) and (dotted(a.func) or "").endswith("Failure") and isinstance(a.args[0], ast.Call) and dotted(a.args[0].func) == "OldPeerCannotDilateError"
     rep.check("C17.R4", "no dilation version in common => fail(Failure(OldPeerCannotDilateError()))", ok, site(fn, MGR), key="C17.R4:no-version-fails",
               what="a peer that cannot dilate is not reported: connect()/listen() wait forever")
-    dv = [n for n in ast.walk(fn) if isinstance(n, ast.Assign) and any(is_self_attr(t, "_dilation_version") for t in n.targets)]
-    ok = len(dv) == 1 and isinstance(dv[0].value, ast.Call) and dotted(dv[0].value.func) == "_find_shared_versions"
+    chosen = _rl(fn, dv[0].value) if len(dv) == 1 and isinstance(dv[0].value, ast.Name) else (dv[0].value if len(dv) == 1 else None)
+    ok = len(dv) == 1 and isinstance(chosen, ast.Call) and dotted(chosen.func) == "_find_shared_versions"
     rep.check("C17.R4", "the dilation version is the shared version of ours and the peer's can-dilate list", ok, site(fn, MGR), key="C17.R4:version-choice")
     ff = tree.func(MGR, "Manager", "fail")
     rep.check("C17.R4", "Manager.fail errors the main channel", bool(calls_named(ff, "self._main_channel.error")), site(ff, MGR), key="C17.R4:fail")
